@@ -95,3 +95,74 @@ def raw_desc(b):
 
 
 UNDEF = "U"
+
+
+def bits(v, w):
+    """non-negative int -> list of w bits, LSB first (the wire format of BitVec.tla)"""
+    v &= (1 << w) - 1
+    return [(v >> i) & 1 for i in range(w)]
+
+
+def unbits(b):
+    return sum((x & 1) << i for i, x in enumerate(b))
+
+
+class Ids(object):
+    """stable small integers for object identities, to make sharing visible in serialised trees"""
+
+    def __init__(self):
+        self.m = {}
+        self.keep = []
+
+    def __call__(self, o):
+        k = id(o)
+        if k not in self.m:
+            self.m[k] = len(self.m) + 1
+            self.keep.append(o)  # keep alive: id() must stay unique
+        return self.m[k]
+
+
+def tree(e, ids=None, depth=0):
+    """JSON-able record of an expression tree (specs/lib/Expr.tla format). Attribute reads only."""
+    if depth > 200:
+        return {"k": "deep", "w": 0, "sf": 0}
+    k = kind(e)
+    if k == "raw":
+        return {"k": "raw", "w": 8 * len(e), "sf": 0, "b": list(e)}
+    d = {"k": k, "w": e.size, "sf": 1 if e.sf else 0}
+    if ids is not None:
+        d["id"] = ids(e)
+    if k == "cst":
+        d["v"] = bits(e.v, e.size)
+    elif k in ("reg", "ext", "lab"):
+        d["n"] = str(e.ref)
+        if k != "reg":
+            d["k"] = "ext"
+    elif k == "slc":
+        d["x"] = tree(e.x, ids, depth + 1)
+        d["pos"] = e.pos
+    elif k == "comp":
+        d["parts"] = [{"pos": lo, "hi": hi, "t": tree(p, ids, depth + 1)} for (lo, hi), p in sorted(e.parts.items())]
+    elif k == "tst":
+        d["c"] = tree(e.tst, ids, depth + 1)
+        d["l"] = tree(e.l, ids, depth + 1)
+        d["r"] = tree(e.r, ids, depth + 1)
+    elif k == "op":
+        d["s"] = e.op.symbol
+        d["l"] = tree(e.l, ids, depth + 1)
+        d["r"] = tree(e.r, ids, depth + 1)
+    elif k == "uop":
+        d["s"] = e.op.symbol
+        d["r"] = tree(e.r, ids, depth + 1)
+    elif k == "ptr":
+        d["base"] = tree(e.base, ids, depth + 1)
+        d["dv"] = bits(e.disp, e.size)
+        d["disp"] = e.disp if -2 ** 30 < e.disp < 2 ** 30 else 0
+        d["seg"] = str(e.seg) if e.seg is not None and e.seg != "" else ""
+    elif k == "mem":
+        d["a"] = tree(e.a, ids, depth + 1)
+        d["en"] = e.endian
+        d["mods"] = [{"loc": tree(l, ids, depth + 1), "val": tree(v, ids, depth + 1)} for (l, v) in (e.mods or [])]
+    elif k == "vec":
+        d["l"] = [tree(x, ids, depth + 1) for x in e.l]
+    return d
